@@ -1,5 +1,350 @@
 package main
 
-// C04, transaction-signing helpers (/repo/signer). Filled in after the ecc part.
+// C04, transaction-signing helpers (/repo/signer).
+//
+//   sign.p2pkh|sign.p2pkhu|sign.p2wpkh|sign.nested <txhex> <idx> <priv> <ht> <value> <refsig|->
+//        -> ok <signed tx hex> | err
+//
+// Go-only op (no model op): the property is decided on the Go side by direct oracles —
+//   * frame condition: version, locktime, outputs, every prevout and sequence, every other input
+//     script and every other witness are unchanged (nil and empty witness identified, as
+//     serialisation does);
+//   * standard form: scriptSig = push(sig) ‖ push(pub) (P2PKH), witness = [sig, pub] with an empty
+//     scriptSig (P2WPKH), the same witness with scriptSig = push(00 14 hash160(pub)) (nested);
+//   * the signature inside is strict DER with the hash-type byte, low-S, and verifies under the
+//     key over the library's own signature hash (C03) of the PRE-state with the P2PKH script code;
+//   * the signed transaction serialises and re-parses to itself;
+//   * byte-for-byte equality with the transaction assembled here from <refsig>, the DER signature
+//     the Lean model (RFC 6979 reference in the oracle) produces for the same digest: the generator
+//     obtains it by asking the oracle `sig.encode <priv> <digest> <ht>` before it runs the case.
 
-func runC04Signer(r *Runner) {}
+import (
+	"bytes"
+	"crypto/sha256"
+	"fmt"
+	"strconv"
+	"strings"
+
+	"github.com/kklash/bitcoinlib/der"
+	"github.com/kklash/bitcoinlib/ecc"
+	"github.com/kklash/bitcoinlib/signer"
+	"github.com/kklash/bitcoinlib/tx"
+	"golang.org/x/crypto/ripemd160"
+)
+
+func c04Hash160(b []byte) []byte {
+	s := sha256.Sum256(b)
+	h := ripemd160.New()
+	h.Write(s[:])
+	return h.Sum(nil)
+}
+
+// direct push of at most 75 bytes
+func c04Push(b []byte) []byte { return append([]byte{byte(len(b))}, b...) }
+
+func c04WitEq(a, b tx.Witness) bool {
+	if len(a) != len(b) {
+		return false
+	}
+	for i := range a {
+		if !bytes.Equal(a[i], b[i]) {
+			return false
+		}
+	}
+	return true
+}
+
+// the P2PKH script code of a key, written out: DUP HASH160 <20> EQUALVERIFY CHECKSIG
+func c04ScriptCode(pub []byte) []byte {
+	out := []byte{0x76, 0xa9, 0x14}
+	out = append(out, c04Hash160(pub)...)
+	return append(out, 0x88, 0xac)
+}
+
+// c04SigHash computes the library's signature hash of the pre-state for the given kind.
+func c04SigHash(t *tx.Tx, kind string, idx int, pub []byte, ht uint32, value uint64) ([]byte, error) {
+	sc := c04ScriptCode(pub)
+	if kind == "p2pkh" || kind == "p2pkhu" {
+		h, err := t.SignatureHashForInput(idx, sc, ht)
+		return h[:], err
+	}
+	h, err := t.SignatureHashForWitnessInput(idx, sc, ht, value)
+	return h[:], err
+}
+
+func c04Sign(kind string, t *tx.Tx, idx int, priv []byte, ht uint32, value uint64) error {
+	switch kind {
+	case "p2pkh":
+		return signer.SignInputP2PKH(t, idx, priv, ht)
+	case "p2pkhu":
+		return signer.SignInputP2PKHUncompressed(t, idx, priv, ht)
+	case "p2wpkh":
+		return signer.SignInputP2WPKH(t, idx, priv, ht, value)
+	case "nested":
+		return signer.SignInputP2SHNestedP2WPKH(t, idx, priv, ht, value)
+	}
+	panic("bad signer kind " + kind)
+}
+
+// c04Install puts sig/pub into a copy of the original transaction in the standard form.
+func c04Install(kind string, t *tx.Tx, idx int, sig, pub []byte) {
+	switch kind {
+	case "p2pkh", "p2pkhu":
+		t.Inputs[idx].Script = append(c04Push(sig), c04Push(pub)...)
+	case "p2wpkh", "nested":
+		if t.Witnesses == nil {
+			t.Witnesses = make([]tx.Witness, len(t.Inputs))
+		}
+		for i := range t.Witnesses {
+			if t.Witnesses[i] == nil {
+				t.Witnesses[i] = tx.Witness{}
+			}
+		}
+		t.Witnesses[idx] = tx.Witness{sig, pub}
+		if kind == "p2wpkh" {
+			t.Inputs[idx].Script = []byte{}
+		} else {
+			t.Inputs[idx].Script = c04Push(append([]byte{0x00, 0x14}, c04Hash160(pub)...))
+		}
+	}
+}
+
+func signOp(kind string) OpFunc {
+	return func(a []string) (string, []string) {
+		raw := unhx(a[0])
+		t, err := tx.FromBytes(raw)
+		orig, _ := tx.FromBytes(raw)
+		if err != nil || orig == nil {
+			return "bad-op", nil
+		}
+		idx, e1 := strconv.Atoi(a[1])
+		priv := unhx(a[2])
+		ht64, e2 := strconv.ParseUint(a[3], 10, 32)
+		value, e3 := strconv.ParseUint(a[4], 10, 64)
+		if e1 != nil || e2 != nil || e3 != nil {
+			return "bad-op", nil
+		}
+		ht := uint32(ht64)
+		priv0 := append([]byte{}, priv...)
+		var direct []string
+		fail := func(f string, args ...interface{}) { direct = append(direct, fmt.Sprintf(f, args...)) }
+
+		serr := c04Sign(kind, t, idx, priv, ht, value)
+		if !bytes.Equal(priv, priv0) {
+			fail("the private key slice was modified")
+		}
+		if serr != nil {
+			if idx >= 0 && idx < len(orig.Inputs) && ht <= 0xff {
+				// the only legitimate refusal for an in-range input is a signature-hash error
+				pub := ecc.GetPublicKey(priv, kind != "p2pkhu")
+				if _, herr := c04SigHash(orig, kind, idx, pub, ht, value); herr == nil {
+					fail("signing refused (%v) although the input exists and the signature hash is defined", serr)
+				}
+			}
+			if dumpTx(t) != dumpTx(orig) {
+				fail("a refused signing request changed the transaction")
+			}
+			return "err", direct
+		}
+		if idx < 0 || idx >= len(orig.Inputs) {
+			fail("signing an input that does not exist succeeded")
+			return "ok " + hx(t.Bytes()), direct
+		}
+		pub := ecc.GetPublicKey(priv, kind != "p2pkhu")
+
+		// ---- frame condition
+		if t.Version != orig.Version || t.Locktime != orig.Locktime {
+			fail("version or locktime changed")
+		}
+		if len(t.Inputs) != len(orig.Inputs) || len(t.Outputs) != len(orig.Outputs) {
+			fail("number of inputs or outputs changed")
+			return "ok " + hx(t.Bytes()), direct
+		}
+		for i := range t.Outputs {
+			if dumpOut(t.Outputs[i]) != dumpOut(orig.Outputs[i]) {
+				fail("output %d changed", i)
+			}
+		}
+		for i := range t.Inputs {
+			if dumpPrevOut(t.Inputs[i].PrevOut) != dumpPrevOut(orig.Inputs[i].PrevOut) || t.Inputs[i].Sequence != orig.Inputs[i].Sequence {
+				fail("prevout or sequence of input %d changed", i)
+			}
+			if i != idx && !bytes.Equal(t.Inputs[i].Script, orig.Inputs[i].Script) {
+				fail("script of input %d (not the signed one) changed", i)
+			}
+		}
+		segwit := kind == "p2wpkh" || kind == "nested"
+		if !segwit {
+			if dumpWits(t.Witnesses) != dumpWits(orig.Witnesses) {
+				fail("legacy signing changed the witnesses")
+			}
+		} else {
+			if len(t.Witnesses) != len(t.Inputs) {
+				fail("witness count %d != input count %d after segwit signing", len(t.Witnesses), len(t.Inputs))
+				return "ok " + hx(t.Bytes()), direct
+			}
+			for i := range t.Witnesses {
+				if i == idx {
+					continue
+				}
+				var ow tx.Witness
+				if orig.Witnesses != nil {
+					ow = orig.Witnesses[i]
+				}
+				if !c04WitEq(t.Witnesses[i], ow) {
+					fail("witness of input %d (not the signed one) changed", i)
+				}
+			}
+		}
+
+		// ---- standard form, and the signature inside
+		var sig, gotPub []byte
+		switch kind {
+		case "p2pkh", "p2pkhu":
+			sc := t.Inputs[idx].Script
+			if len(sc) < 2 || int(sc[0]) > 75 || len(sc) < 1+int(sc[0])+1 {
+				fail("scriptSig is not push(sig) push(pub)")
+			} else {
+				sig = sc[1 : 1+int(sc[0])]
+				rest := sc[1+int(sc[0]):]
+				if int(rest[0]) != len(rest)-1 || int(rest[0]) > 75 {
+					fail("scriptSig is not push(sig) push(pub)")
+				} else {
+					gotPub = rest[1:]
+				}
+			}
+		default:
+			w := t.Witnesses[idx]
+			if len(w) != 2 {
+				fail("witness of the signed input does not have two items")
+			} else {
+				sig, gotPub = w[0], w[1]
+			}
+			want := []byte{}
+			if kind == "nested" {
+				want = c04Push(append([]byte{0x00, 0x14}, c04Hash160(pub)...))
+			}
+			if !bytes.Equal(t.Inputs[idx].Script, want) {
+				fail("scriptSig of the signed segwit input is %s, want %s", hx(t.Inputs[idx].Script), hx(want))
+			}
+		}
+		if gotPub != nil && !bytes.Equal(gotPub, pub) {
+			fail("the public key installed is not the key of the private key in the requested encoding")
+		}
+		if sig != nil {
+			if !eccBip66(sig) || sig[len(sig)-1] != byte(ht) {
+				fail("the signature installed is not strict DER followed by the hash type")
+			} else if rr, ss, _, derr := der.DecodeSignature(append([]byte{}, sig...)); derr != nil {
+				fail("the signature installed does not decode")
+			} else {
+				if ss.Cmp(eccHalfN) > 0 {
+					fail("the signature installed is not low-S")
+				}
+				h, herr := c04SigHash(orig, kind, idx, pub, ht, value)
+				if herr != nil {
+					fail("signing succeeded although the signature hash of the pre-state is undefined")
+				} else if !ecc.VerifyECDSA(pub, h, rr, ss) {
+					fail("the signature installed does not verify over the signature hash of the pre-state")
+				}
+			}
+		}
+
+		// ---- serialises and re-parses to itself
+		enc := t.Bytes()
+		if enc == nil {
+			fail("the signed transaction does not serialise")
+		} else if back, perr := tx.FromBytes(enc); perr != nil {
+			fail("the signed transaction does not re-parse: %v", perr)
+		} else if !bytes.Equal(back.Bytes(), enc) || dumpTxNorm(back) != dumpTxNorm(t) {
+			fail("the signed transaction re-parses to a different transaction")
+		}
+
+		// ---- byte-for-byte against the reference assembly
+		if len(a) > 5 && a[5] != "-" {
+			exp, _ := tx.FromBytes(raw)
+			c04Install(kind, exp, idx, unhx(a[5]), pub)
+			if !bytes.Equal(exp.Bytes(), enc) {
+				fail("signed transaction differs from the one assembled from the reference (RFC 6979) signature: want %s", truncate(hx(exp.Bytes()), 400))
+			}
+		}
+		return "ok " + hx(enc), direct
+	}
+}
+
+// dumpTxNorm identifies a nil witness list with a list of empty witnesses only when the encoding does
+func dumpTxNorm(t *tx.Tx) string {
+	c := *t
+	allEmpty := true
+	for _, w := range c.Witnesses {
+		if len(w) != 0 {
+			allEmpty = false
+		}
+	}
+	if allEmpty {
+		c.Witnesses = nil
+	}
+	return dumpTx(&c)
+}
+
+func init() {
+	for _, k := range []string{"p2pkh", "p2pkhu", "p2wpkh", "nested"} {
+		reg("sign."+k, GoOnly, signOp(k))
+	}
+}
+
+var c04HashTypes = []uint32{1, 2, 3, 0x81, 0x82, 0x83}
+
+func runC04Signer(r *Runner) {
+	kinds := []string{"p2pkh", "p2pkhu", "p2wpkh", "nested"}
+	n := r.N(320, 4000)
+	for i := 0; i < n; i++ {
+		t, _ := r.genTx(4, 3)
+		if len(t.Inputs) > 8 { // keep the boundary-count transactions rare and small enough
+			if i%8 != 0 {
+				t.Inputs = t.Inputs[:3]
+				if t.Witnesses != nil {
+					t.Witnesses = t.Witnesses[:3]
+				}
+			}
+		}
+		raw := t.Bytes()
+		if raw == nil {
+			continue
+		}
+		kind := kinds[i%4]
+		idx := r.rng.Intn(len(t.Inputs))
+		priv := r.eccScalar(i / 4)
+		if i/4 < len(eccEdgeScalars) {
+			priv = eccEdgeScalars[i/4]
+		}
+		ht := c04HashTypes[(i/4)%6]
+		value := r.u64()
+		// reference signature from the model for the library's own digest of the pre-state
+		ref := "-"
+		pre, _ := tx.FromBytes(raw)
+		pub := ecc.GetPublicKey(priv, kind != "p2pkhu")
+		if h, err := c04SigHash(pre, kind, idx, pub, ht, value); err == nil && r.oracle != nil {
+			ans, aerr := r.oracle.Ask([]string{"sig.encode " + hx(priv) + " " + hx(h) + " " + strconv.Itoa(int(ht))})
+			if aerr == nil && strings.HasPrefix(ans[0], "ok ") {
+				ref = ans[0][3:]
+			}
+		}
+		args := []string{hx(raw), strconv.Itoa(idx), hx(priv), strconv.Itoa(int(ht)), strconv.FormatUint(value, 10), ref}
+		tag := "sign-" + kind
+		if ref == "-" {
+			tag += "-noref" // the pre-state has no signature hash (or no oracle): only the direct oracles apply
+		}
+		r.Do("sign."+kind, args, tag, true, fmt.Sprintf("%d inputs, input %d, hash type %#x", len(t.Inputs), idx, ht))
+		switch i % 16 {
+		case 5: // input index out of range
+			bad := []int{-1, len(t.Inputs), len(t.Inputs) + 1, 1 << 30}[r.rng.Intn(4)]
+			args2 := append([]string{}, args...)
+			args2[1], args2[5] = strconv.Itoa(bad), "-"
+			r.Do("sign."+kind, args2, "sign-badindex", false, "")
+		case 9: // hash type that does not fit a byte: EncodeSignature refuses
+			args2 := append([]string{}, args...)
+			args2[3], args2[5] = strconv.Itoa(0x100+int(ht)), "-"
+			r.Do("sign."+kind, args2, "sign-bad-hashtype", false, "")
+		}
+	}
+}
